@@ -62,6 +62,7 @@ func TestRaced(t *testing.T) {
 	for i := 0; i < n; i++ {
 		c := gen.Example(int(pb.Seed("raced")%1000003) + i)
 		js, _ := json.Marshal(c)
+		restoreProcs, procsClass := pb.FlipProcs(js)
 		if cur != "" {
 			b, _ := json.Marshal(pb.ReplayFile{Property: os.Getenv("VERIF_PROPERTY"), Prop: "syncring_raced", Kind: "race-detector", Mode: "race", Case: js, Error: "data race reported by the race detector while this program was running (report next to this file)"})
 			os.WriteFile(cur, b, 0o644)
@@ -84,6 +85,8 @@ func TestRaced(t *testing.T) {
 				t.Fatalf("raced program %s: %v", js, err)
 			}
 		}
+		restoreProcs()
+		rec.ClassIf(procsClass != "", procsClass)
 		st.Case(js, rec)
 	}
 }
@@ -305,6 +308,7 @@ func TestRacedLoops(t *testing.T) {
 	for i := 0; i < n; i++ {
 		c := gen.Example(int(pb.Seed("loops")%1000003) + i)
 		js, _ := json.Marshal(c)
+		restoreProcs, procsClass := pb.FlipProcs(js)
 		if cur := os.Getenv("VERIF_CURRENT_CASE"); cur != "" {
 			b, _ := json.Marshal(pb.ReplayFile{Property: os.Getenv("VERIF_PROPERTY"), Prop: "syncring_raced_loops", Kind: "race-detector", Mode: "race", Case: js})
 			os.WriteFile(cur, b, 0o644)
@@ -322,6 +326,8 @@ func TestRacedLoops(t *testing.T) {
 		rec.ClassIf(c.Producers >= 2 && c.Consumers >= 2, "MPMC")
 		rec.ClassIf(c.Req > 65536, "requested capacity above 2^16")
 		rec.ClassIf(c.Elem != 0, "pointer-carrying element type")
+		restoreProcs()
+		rec.ClassIf(procsClass != "", procsClass)
 		st.Case(js, rec)
 	}
 }
